@@ -107,6 +107,12 @@ class Origins:
                 elif kind == "call":
                     t = obj
                     nm = t.callee_name()
+                    arr = self._array_of_refs(t, stack + (l,)) if nm == "next" else None
+                    if arr is not None:
+                        # `for r in [&mut a, &mut b] { .. }`: the k-th item points where the k-th reference points; which one it is
+                        # on a given path is decided by the path engine (it counts the next() calls)
+                        outs.append(Origin(("arrayitem", b, arr)))
+                        continue
                     if t.args and t.args[0].place is not None and (nm in BORROWING or nm in ("unwrap", "expect", "get_mut", "insert", "or_insert", "or_insert_with", "into_mut", "next", "next_back", "enumerate", "rev", "take", "skip", "zip")) and self._is_ptr_like_result(l):
                         o = self.of_place(t.args[0].place, stack + (l,), value=True)
                         if o is not None and (nm in ("index_mut", "index", "get_mut", "get", "iter_mut", "iter", "first_mut", "last_mut", "entry", "values_mut")
@@ -125,6 +131,38 @@ class Origins:
                 res = None
         self._memo[l] = res
         return res
+
+    def _array_of_refs(self, t, stack):
+        """origins of the references in a literal array whose by-value iterator `t` (a next() call) advances, else None"""
+        fn = self.fn
+        if not (t.args and t.args[0].place is not None and t.args[0].place.is_local()):
+            return None
+        l = t.args[0].place.local
+        for _ in range(6):       # &mut iter -> iter local -> into_iter(array) -> array aggregate
+            ds = fn.defs().get(l, [])
+            if len(ds) != 1:
+                return None
+            b, i, kind, obj = ds[0]
+            if kind == "stmt" and obj.rv.k in ("ref", "use") and (obj.rv.place or (obj.rv.ops[0].place if obj.rv.ops else None)) is not None:
+                pl = obj.rv.place or obj.rv.ops[0].place
+                if pl.proj and not (len(pl.proj) == 1 and pl.proj[0]["k"] == "deref"):
+                    return None
+                l = pl.local
+            elif kind == "call" and obj.callee_name() == "into_iter" and obj.args and obj.args[0].place is not None and obj.args[0].place.is_local():
+                l = obj.args[0].place.local
+            elif kind == "stmt" and obj.rv.k == "aggregate" and obj.rv.j.get("ak") == "array":
+                outs = []
+                for o in obj.rv.ops:
+                    if o.place is None or not o.place.is_local() or not fn.local_ty(o.place.local).startswith("&"):
+                        return None
+                    oo = self.of_local(o.place.local, stack)
+                    if oo is None:
+                        return None
+                    outs.append(oo)
+                return tuple(outs) if outs else None
+            else:
+                return None
+        return None
 
     def _is_ptr_like_result(self, l):
         ty = self.fn.local_ty(l)
@@ -356,7 +394,9 @@ class PathEnumerator:
                 out.append((e["cond"], bool(e["value"])))
             elif e.get("discr_ty") in ("usize", "u64", "u32", "u8", "u16", "i32", "i64", "isize"):
                 if isinstance(e["value"], int):
-                    out.append((mk("Eq", e["cond"], const(e["value"])), True))
+                    from .guards import checked_outcome
+                    f0 = (mk("Eq", e["cond"], const(e["value"])), True)
+                    out.append(checked_outcome(*f0) or f0)
                 elif e["value"] == "otherwise":
                     for v in e.get("arm_values", ()):
                         out.append((mk("Eq", e["cond"], const(v)), False))
@@ -385,6 +425,9 @@ class PathEnumerator:
                     for e1 in ev:
                         evs, state = self._push(evs, state, e1)
                 elif ev is not None:
+                    if ev.get("root") and ev["root"][0] == "arrayitem":
+                        ro = self._resolve_origin(Origin(ev["root"], ev["path"]), evs)
+                        ev = dict(ev, root=ro.root if ro else ("unknown", "array item"), path=ro.path if ro else ev["path"])
                     evs, state = self._push(evs, state, ev)
         t = blk.term
         k = t.k
@@ -701,7 +744,7 @@ class PathEnumerator:
             ty = None
             if a.place.is_local():
                 ty = fn.local_ty(a.place.local)
-            o = self.origins.of_place(a.place, value=True) if a.place.is_local() else None
+            o = self._resolve_origin(self.origins.of_place(a.place, value=True), evs) if a.place.is_local() else None
             ptr_args.append((ty, o))
 
         ev = {"kind": "call", "callee": callee, "decl": decl, "name": name, "local": t.callee_is_local(),
@@ -870,6 +913,21 @@ class PathEnumerator:
                 e3[dest] = fk[0]
                 c3[fk[1][0]] = (fk[1][1], cls.get(fk[1][0], (None, None))[1])
             yield from self._next(bb, target, blocks, evs2, e3, c3, backcount, state2)
+
+    def _resolve_origin(self, o, evs):
+        """an ("arrayitem", next_bb, origins) root stands for the reference handed out by the latest next() call at next_bb on this path"""
+        if o is None or o.root[0] != "arrayitem":
+            return o
+        k = 0
+        node = evs
+        while node:
+            node, e_ = node
+            if e_["kind"] == "call" and e_["bb"] == o.root[1] and e_["name"] == "next":
+                k += 1
+        arr = o.root[2]
+        if 1 <= k <= len(arr):
+            return arr[k - 1].extend(o.path)
+        return None
 
     def _closure_arg(self, a):
         """(closure key, captured operands, bb, stmt index) when operand `a` is a local holding a closure built in this function"""
